@@ -35,6 +35,9 @@ type c10SweepCase struct {
 	T       axTx     `json:"t"`
 	Deltas  []int64  `json:"deltas"`
 	Restart []bool   `json:"restart"`
+	// Join: deliver the last prefix block's txs in T's own block (same logical
+	// state in front of T, but not yet committed)
+	Join []bool `json:"join"`
 }
 
 const c10Ample = 200_000_000
@@ -87,7 +90,7 @@ func (e *axEnv) SimPadded(tx axTx) (sdk.Result, error) {
 	return res, nil
 }
 
-var c10Deltas = []int64{-1, -1, -2, -17, -1000, -50_000, -400_000, -1_200_000, 0, 0, 1, 5000}
+var c10Deltas = []int64{-1, -1, -17, -1000, -50_000, -1_200_000, 0, 0, 0, 1, 1, 5000}
 
 func c10SweepDraw(rt *rapid.T) c10SweepCase {
 	c := c10SweepCase{NAcc: rapid.IntRange(2, 3).Draw(rt, "nacc")}
@@ -98,7 +101,7 @@ func c10SweepDraw(rt *rapid.T) c10SweepCase {
 		}
 		return tx
 	}
-	for nb := rapid.IntRange(0, 2).Draw(rt, "nprefix"); nb > 0; nb-- {
+	for nb := rapid.IntRange(1, 2).Draw(rt, "nprefix"); nb > 0; nb-- {
 		c.Prefix = append(c.Prefix, []axTx{goodTx(2)})
 	}
 	if rapid.IntRange(0, 4).Draw(rt, "anyT") == 0 {
@@ -110,6 +113,7 @@ func c10SweepDraw(rt *rapid.T) c10SweepCase {
 	for i := 0; i < 2; i++ {
 		c.Deltas = append(c.Deltas, rapid.SampledFrom(c10Deltas).Draw(rt, "delta"))
 		c.Restart = append(c.Restart, rapid.IntRange(0, 2).Draw(rt, "restart") == 0)
+		c.Join = append(c.Join, rapid.IntRange(0, 2).Draw(rt, "join") == 0)
 	}
 	return c
 }
@@ -191,7 +195,13 @@ func c10SweepExec(ctx *vk.Ctx, c c10SweepCase) error {
 		if err != nil {
 			return err
 		}
-		if err := x.Prefix(c.Prefix); err != nil {
+		join := i < len(c.Join) && c.Join[i] && len(c.Prefix) > 0 && !c.Restart[i]
+		prefix := c.Prefix
+		if join {
+			prefix = c.Prefix[:len(c.Prefix)-1]
+			ctx.Class("last-prefix-tx-in-T's-block")
+		}
+		if err := x.Prefix(prefix); err != nil {
 			return err
 		}
 		if c.Restart[i] {
@@ -211,6 +221,13 @@ func c10SweepExec(ctx *vk.Ctx, c c10SweepCase) error {
 		t := c.T
 		t.Gas = need + delta
 		x.Begin()
+		if join {
+			for _, p := range c.Prefix[len(c.Prefix)-1] {
+				if _, err := x.Send(p); err != nil {
+					return err
+				}
+			}
+		}
 		r, err := x.SendPadded(t)
 		if err != nil {
 			return err
@@ -224,7 +241,7 @@ func c10SweepExec(ctx *vk.Ctx, c c10SweepCase) error {
 		if err != nil {
 			return err
 		}
-		what := fmt.Sprintf("T with GasWanted = need%+d = %d (restart=%v)", delta, t.Gas, c.Restart[i])
+		what := fmt.Sprintf("T with GasWanted = need%+d = %d (restart=%v, joined=%v)", delta, t.Gas, c.Restart[i], join)
 		switch {
 		case delta < 0 && !axOOG(r):
 			return fmt.Errorf("%s: the tx needs %d gas but was not stopped: result %s, GasUsed %d", what, need, axErrType(r), r.GasUsed)
@@ -235,7 +252,7 @@ func c10SweepExec(ctx *vk.Ctx, c c10SweepCase) error {
 				return fmt.Errorf("%s: same tx, same state, different outcome than with ample gas:\n ample=%+v\n now=%+v", what, a, b)
 			}
 			ctx.Class("same-gas-at-or-above-need")
-			nt = nt || c.Restart[i] || delta <= 1
+			nt = nt || c.Restart[i] || join || delta <= 1
 		case delta >= 0:
 			// consumption peaked above its final value (gas refunds of
 			// overwritten store keys): legitimate, but counted
@@ -250,13 +267,16 @@ func c10SweepExec(ctx *vk.Ctx, c c10SweepCase) error {
 		if r.GasWanted == 0 {
 			// out of gas inside the ante handler: an ante rejection, no fee
 			ctx.Class("oog-in-ante")
-			if d := ec.Diff(before, after, nil); d != "" {
+			if d := ec.Diff(before, after, nil); d != "" && !join {
 				return fmt.Errorf("%s: rejected by the ante handler yet state changed:\n%s", what, d)
 			}
 			continue
 		}
 		ctx.Class("oog-after-ante")
 		nt = true
+		if join {
+			continue // the block also holds the prefix txs: no per-tx before/after state
+		}
 		if bal0-bal1 != c.T.Fee || seq1 != seq0+1 {
 			return fmt.Errorf("%s: out of gas: balance changed by %d (fee %d), sequence %d -> %d", what, bal0-bal1, c.T.Fee, seq0, seq1)
 		}
@@ -272,7 +292,7 @@ func c10SweepExec(ctx *vk.Ctx, c c10SweepCase) error {
 func TestC10_Sweep(t *testing.T) {
 	vk.Run(t, vk.Spec[c10SweepCase]{
 		ID: "C10", Name: "TestC10_Sweep",
-		Rule: "rapid: prefix (0-2 txs) + tx T of 1-3 messages (state-writing calls, sends, deployments, scripts; 1 in 5 from the general grammar incl. failing messages); need N measured with ample gas on a reference chain and by two simulate queries; two fresh chains deliver T with GasWanted = N+delta, delta in {-1.2M..-1, 0, +1, +5000}, one third of them after an app restart; tx length kept independent of GasWanted by memo padding; non-trivial = an out-of-gas tx that passed the ante was checked for fee-only effects, or the same gas was reproduced at delta<=1 or after a restart",
+		Rule: "rapid: prefix (1-2 txs) + tx T of 1-3 messages (state-writing calls, sends, deployments, scripts; 1 in 5 from the general grammar incl. failing messages); need N measured with ample gas on a reference chain and by two simulate queries; two fresh chains deliver T with GasWanted = N+delta, delta in {-1.2M..-1, 0, +1, +5000}, one third of them after an app restart, others with the last prefix tx moved into T's own block (same logical state, uncommitted); tx length kept independent of GasWanted by memo padding; non-trivial = an out-of-gas tx that passed the ante was checked for fee-only effects, or the same gas was reproduced at delta<=1, after a restart or behind an uncommitted predecessor",
 		Draw: c10SweepDraw, Exec: c10SweepExec,
 	})
 }
